@@ -158,3 +158,15 @@ claim("C06", "TLC trace validation of real meshes (static clauses + cell-by-cell
       "1.0/0.5/0.3/0.2) is validated by TLC, including a replay of the sweep on the real mesh partitioned by cell, enclosure of own atoms / exclusion of neighbours, and the "
       "level-residual trend across separations.",
       "Compiled Lewiner kernel used as found; vertices shipped at 1/3072 with slack 8 units; open known finding C06-lewiner-membrane (twinned faces on ambiguous cell faces) is tagged by a TLC predicate and reported as KNOWN-FINDING.")
+
+claim("C09", "TLC-certified poses + relational trace validation of real descriptor entry points; model checking of the pose group",
+      "Descriptor.tla models the pose of a molecule (and its environment) exactly on an integer grid under a group of actions (translations up to 50 A, cube rotations, "
+      "rational rotations from integer quaternions, adjacent transpositions of interior and exterior atoms). MC_Descriptor checks rigidity, closure and orthogonality of that "
+      "group and prints every action word up to a depth. For each word the real code (promolecule_density_descriptor, Molecule.shape_descriptors, "
+      "stockholder_weight_descriptor; channels none/d_norm/esp; l_max 4..12) is run on coordinates that TLC certifies to be the word applied to the base, and the descriptor "
+      "must equal the identity-pose descriptor within Tol(word class, l_max): 5e-3 for translation/permutation words, a non-increasing table (0.15/0.10/0.08) for words "
+      "containing a rotation. Radii returned by the public radial solvers must lie in the bounds and satisfy the isovalue equation (2e-3), and probes whose bounds cannot "
+      "contain the surface must raise.",
+      "Relational oracle only (the thinnest specification of the twenty, as the design says): the descriptor values themselves are not computed in TLA+; rotation tolerance is "
+      "dominated by the discretisation error of the non-band-limited radial function, so sub-percent rotation defects (e.g. the N-slice defect, caught exactly by C08) are below it; "
+      "Crystal.*_shape_descriptors are not driven.")
